@@ -65,6 +65,7 @@ class SymEnv(object):
         shim.HOOKS.warn = None
         shim.HOOKS.fmt = None
         shim.HOOKS.range_cap = None
+        shim.HOOKS.float_sqrt = False
         self.p = core.CUR
 
     # -- inputs
@@ -177,6 +178,9 @@ class SymEnv(object):
 
     def cap_loops(self, k):
         shim.HOOKS.range_cap = k
+
+    def float_sqrt(self, on=True):
+        shim.HOOKS.float_sqrt = on
 
     def own(self, a, name):
         """mark an array as caller-owned: any in-place write to its storage is recorded"""
@@ -398,6 +402,9 @@ class ConcEnv(object):
         return self.ns[name]
 
     def cap_loops(self, k):
+        pass
+
+    def float_sqrt(self, on=True):
         pass
 
     def own(self, a, name):
